@@ -160,4 +160,75 @@ TArgsOK(g, vs) == /\ \A i \in 1..Len(vs) : g.ty[vs[i]] = "Z" /\ IsTLike(g.ph[vs[
 \* a node is [kind |-> "graph", g] | [kind |-> "scalar", s] | [kind |-> "sum"|"prod", kids : sequence of node ids];
 \* the meaning of a tree is defined bottom-up; Value of a graph node is Den of the closed diagram (0 indices)
 DenClosed(g) == Den(g)[<<>>]
+
+\* ---------- the computation tree of the Decomposer (ComputationNode, decompose.rs:1024-1041, 1155-1399) ----------
+\* A tree is [kind |-> "graph", g |-> closed diagram] | [kind |-> "scalar", s |-> ring element]
+\*         | [kind |-> "sum",  kids |-> sequence of trees]   (the terms of one decomposition step)
+\*         | [kind |-> "prod", kids |-> sequence of trees]   (the connected components of one diagram).
+\* decompose_until_depth(k) leaves such a tree behind (reduce_computation = false), decompose / decompose_parallel
+\* reduce it: a sum node to the SUM of its children, a product node to their PRODUCT.
+TGraph(g) == [kind |-> "graph", g |-> g]
+TScalar(s) == [kind |-> "scalar", s |-> s]
+RECURSIVE RSumSeq(_)
+RSumSeq(s) == IF s = <<>> THEN RZero ELSE RAdd(Head(s), RSumSeq(Tail(s)))
+RECURSIVE RProdSeq(_)
+RProdSeq(s) == IF s = <<>> THEN ROne ELSE RMul(Head(s), RProdSeq(Tail(s)))
+RECURSIVE TreeVal(_)
+TreeVal(t) == CASE t.kind = "graph"  -> DenClosed(t.g)
+                [] t.kind = "scalar" -> t.s
+                [] t.kind = "sum"    -> RSumSeq([i \in 1..Len(t.kids) |-> TreeVal(t.kids[i])])
+                [] t.kind = "prod"   -> RProdSeq([i \in 1..Len(t.kids) |-> TreeVal(t.kids[i])])
+RECURSIVE TreeHasGraph(_)
+TreeHasGraph(t) == CASE t.kind = "graph" -> TRUE [] t.kind = "scalar" -> FALSE
+                     [] OTHER -> \E i \in 1..Len(t.kids) : TreeHasGraph(t.kids[i])
+RECURSIVE TreeHasProd(_)
+TreeHasProd(t) == CASE t.kind \in {"graph", "scalar"} -> FALSE [] t.kind = "prod" -> TRUE
+                    [] OTHER -> \E i \in 1..Len(t.kids) : TreeHasProd(t.kids[i])
+\* connected components (component_vertices) and the sub-diagram on a vertex set (subgraph_from_vertices: scalar 1,
+\* no inputs / outputs); try_decompose_by_components gives the WHOLE scalar of g to the first component
+DReach(g, v) ==
+  LET RECURSIVE grow(_)
+      grow(S) == LET S2 == S \cup UNION {Nbrs(g, u) : u \in S} IN IF S2 = S THEN S ELSE grow(S2)
+  IN grow({v})
+DComponents(g) == {DReach(g, v) : v \in g.vs}
+DSubGraph(g, S) == [g EXCEPT !.vs = S, !.ty = [v \in S |-> g.ty[v]], !.ph = [v \in S |-> g.ph[v]], !.vr = [v \in S |-> g.vr[v]],
+                             !.et = [e \in {e \in DOMAIN g.et : e \subseteq S} |-> g.et[e]],
+                             !.ins = <<>>, !.outs = <<>>, !.sc = ROne, !.sf = <<>>]
+\* the components in a fixed order (least vertex first; the code's order is that of a hash set: any order is allowed,
+\* the value of the product does not depend on it), the first one carrying the scalar
+SplitKids(g) ==
+  LET cs == SetToSortSeq(DComponents(g), LAMBDA A, B : Min(A) < Min(B))
+  IN [i \in 1..Len(cs) |-> TGraph(IF i = 1 THEN [DSubGraph(g, cs[i]) EXCEPT !.sc = g.sc] ELSE DSubGraph(g, cs[i]))]
+\* one level of decompose_graph on a graph node (no inter-step simplification): a Clifford diagram is finished to its
+\* scalar; with splitting on, a diagram with several components becomes a product node; otherwise the chosen
+\* decomposition step makes a sum node.  The driver drv is one of three deterministic model drivers: cut / single-
+\* decompose the least non-Clifford spider, or pair up the two least ones (what first_ts + TDecomp do below 6 T's).
+TsOf(h) == SetToSortSeq({v \in Spiders(h) : ~IsClifford(h.ph[v])}, <)
+DrvChoose(drv, h) ==
+  LET ts == TsOf(h) IN
+  CASE drv = "cut"    -> [kind |-> "SpiderCuttingDecomp", vs |-> <<ts[1]>>]
+    [] drv = "single" -> [kind |-> "SingleDecomp", vs |-> <<ts[1]>>]
+    [] drv = "ts"     -> [kind |-> "TDecomp", vs |-> SubSeq(ts, 1, IF Len(ts) >= 2 THEN 2 ELSE 1)]
+ExpandGraph(g, split, drv) ==
+  IF TCount(g) = 0 THEN TScalar(DenClosed(g))
+  ELSE IF split /\ Cardinality(DComponents(g)) > 1 THEN [kind |-> "prod", kids |-> SplitKids(g)]
+  ELSE LET ts == ApplyDecomp(g, DrvChoose(drv, g)) IN [kind |-> "sum", kids |-> [i \in 1..Len(ts) |-> TGraph(ts[i])]]
+\* decompose_until_depth(k): expand every graph node that sits at depth < k (depth counted like current_depth)
+RECURSIVE ExpandUntil(_, _, _, _, _)
+ExpandUntil(t, depth, k, split, drv) ==
+  IF t.kind = "scalar" THEN t
+  ELSE IF t.kind = "graph" THEN
+    (IF depth = k THEN t ELSE ExpandUntil(ExpandGraph(t.g, split, drv), depth, k, split, drv))
+  ELSE [t EXCEPT !.kids = [i \in 1..Len(t.kids) |-> ExpandUntil(t.kids[i], depth + 1, k, split, drv)]]
+\* decompose(): reduce a (partially decomposed) tree completely, bottom-up
+RECURSIVE ReduceTree(_, _, _)
+ReduceTree(t, split, drv) ==
+  CASE t.kind = "scalar" -> t.s
+    [] t.kind = "graph"  -> ReduceTree(ExpandGraph(t.g, split, drv), split, drv)
+    [] t.kind = "sum"    -> RSumSeq([i \in 1..Len(t.kids) |-> ReduceTree(t.kids[i], split, drv)])
+    [] t.kind = "prod"   -> RProdSeq([i \in 1..Len(t.kids) |-> ReduceTree(t.kids[i], split, drv)])
+\* terms_for_tcount (decompose.rs:34): the BSS bound 7^(t div 6) * 2^((t mod 6) div 2) * (2 if t odd)
+RECURSIVE IPow(_, _)
+IPow(b, n) == IF n = 0 THEN 1 ELSE b * IPow(b, n - 1)
+TermsForTCount(t) == IPow(7, t \div 6) * IPow(2, (t % 6) \div 2) * (IF t % 2 = 1 THEN 2 ELSE 1)
 =============================================================================
